@@ -102,6 +102,20 @@ def raw_flow(ctx, pw, cred, context, idu, ids, ksf, rejections, nofile):
     ctx.expect(r.ok, "in-memory flow succeeds")
 
 
+def constant_tape_flow(ctx, fill):
+    """the whole flow on a constant-byte tape: client and server draw the SAME nonce and seed bytes - the RFC defines the
+    outputs for any randomness, coinciding values included (bytes compared with the model)"""
+    ctx.nontrivial = True
+    real = ctx.tape
+    ctx.tape = lambda n: bytes([fill]) * n
+    try:
+        f = honest_flow(ctx, b"password", b"alice", b"ctx", b"client", b"server", "~", stop_on_error=False, count=True)
+    finally:
+        ctx.tape = real
+    ctx.expect(f.ok and f.session_client == f.session_server, "login on a tape of 0x%02x bytes completes with equal keys (%s at %s)"
+               % (fill, f.error, f.failed_at))
+
+
 def primitives(ctx, n):
     """the primitive layer of the model against the crates it mirrors (sha2, hmac, hkdf, elliptic-curve hash2curve,
     curve25519-dalek, voprf): byte-exact on length sweeps across every padding / block boundary"""
@@ -167,6 +181,7 @@ def cases(tier, seed):
                             params=dict(pw=pw, cred=cred, context=c, idu=a, ids=b, ksf=["~", "D", "R"][k % 3],
                                         rejections=(1 if k == 2 else 0), nofile=(k % 3 == 1))))
     for oi, o in enumerate(OPRFS):
+        out.append(dict(script=constant_tape_flow, suite=o + "/" + ["P256", "X25519", "R255", "P521"][oi], seed=seed * 100 + 50 + oi, mode="raw", params=dict(fill=[0x01, 0x40, 0x7f, 0x33][oi])))
         out.append(dict(script=primitives, suite=o + "/" + ["R255", "P256", "X25519", "P384"][oi], seed=seed * 100 + oi, mode="raw",
                         params=dict(n=(24 if tier == "quick" else 200))))
     for i, d in enumerate(parse_vectors()):
